@@ -78,6 +78,39 @@ PEERS = [1, 2, 3]
 ERR = {"rejected", "noconn", "clogged", "valpending", "dialfail", "taskclosed"}
 
 
+# ------------------------------------------------------------------ checker mode / comparison
+
+def model_lines(case, impl):
+    """Checker mode for ONE choice of the implementation: the iteration order of the peer set of a multi-peer
+    OpenSubstream command (a HashSet). The adapter prints it (`order=…`) with the operation during which the command
+    is handed to the protocol; the model driver follows any permutation of the set (and prints it back)."""
+    if impl is None:
+        return case
+    res = []
+    for i, op in enumerate(case):
+        o = impl[i] if i < len(impl) else ""
+        orders = [t for t in o.split() if t.startswith("order=")]
+        res.append(op + (" -> " + " ".join(orders) if orders else ""))
+    return res
+
+
+def normalize(line):
+    """Comparison of one observation line. Events of DIFFERENT peers have no defined order on the user channel when
+    they stem from one poll of the handshake service (it walks a HashMap): the tokens of an `events` answer are
+    compared per peer (stable sort by peer; the order of each peer's own events is compared exactly)."""
+    if line.startswith("panic"):
+        return "panic"
+    m = re.match(r"\[(.*?)\](.*)$", line)
+    if m and EV.search(m.group(1)):
+        toks = m.group(1).split()
+
+        def key(t):
+            e = EV.fullmatch(t)
+            return int(e.group(2)) if e else -1
+        return "[" + " ".join(sorted(toks, key=key)) + "]" + m.group(2)
+    return line
+
+
 # ------------------------------------------------------------------ generator
 
 def frag_out(p):
